@@ -8,7 +8,7 @@ rsync -a --exclude .git --exclude docs --exclude '*.pyc' --exclude __pycache__ /
 ( cd "$SCR" && patch -p1 -s < "$PATCH" )
 cd "$(dirname "$0")/.."
 set +e
-DSIM_REPO="$SCR" DSIM_NO_FRESH=1 ./check "$PROP" --runs "$RUNS" > "$SCR/out.txt" 2>&1
+DSIM_REPO="$SCR" DSIM_EVIDENCE_DIR="$SCR/evidence" DSIM_NO_FRESH=1 ./check "$PROP" --runs "$RUNS" > "$SCR/out.txt" 2>&1
 RC=$?
 grep -E "^\[|signature|VIOLATION|HARNESS|OK property" "$SCR/out.txt" | cut -c1-260 | head -12
 echo "exit=$RC"
